@@ -65,7 +65,26 @@ func HarnessC09_TokensFile() {
 		}
 		vfCover("c09-tokensfile-readable")
 	}
-	// after a restart the store can be repeated whatever the crash left behind
+	// after a restart a shorter list than the one whose write was interrupted is
+	// stored (a longer temporary file may have been left behind), again possibly
+	// interrupted
+	short := Tokens{n1}
+	crash2 := vfChoice("crash_at_2", 6)
+	done2 := false
+	func() {
+		defer func() { _ = recover() }()
+		vfFsCrashAt(crash2)
+		if err := short.StoreToFile(path); err == nil {
+			done2 = true
+		}
+	}()
+	vfFsCrashAt(-1)
+	if !done2 {
+		vfAssert(short.StoreToFile(path) == nil, "C09 the tokens file can be written again after a crash")
+	}
+	last, err3 := LoadTokensFromFile(path)
+	vfAssert(err3 == nil && vfSameTokenList(last, short), "C09 a shorter token list stored after an interrupted write is what a later load yields, whatever temporary file was left behind")
+	// and the store can be repeated whatever the crashes left behind
 	vfAssert(nw.StoreToFile(path) == nil, "C09 the tokens file can be written again after a crash")
 	again, err2 := LoadTokensFromFile(path)
 	vfAssert(err2 == nil && vfSameTokenList(again, nw), "C09 the repeated store is what a later load yields")
